@@ -2,6 +2,7 @@
   C01 — Accepted messages are handled exactly once; rejected ones never.
 -/
 import Rsactor.Inv.Fifo
+import Rsactor.Inv.Stop
 import Rsactor.Inv.Rej
 import Rsactor.Inv.Time
 import Rsactor.Ties.send_paths_shape
@@ -79,6 +80,33 @@ theorem rejected_never_monitor (cap : Nat) (sc : Script) (ls : List Label) (s : 
       | exact nostart (Or.inl he)
       | exact nostart (Or.inr ⟨he, hk⟩)
   | _ => rfl
+
+/-- `graceful_complete`: in every reachable state, every envelope among the first `taken` entries of the
+    acceptance log - everything the loop has dequeued - has had its handler started (with `at_most_once`:
+    exactly once).  `taken` only stops growing when the loop stops (kill, stop marker, crash, no reference). -/
+theorem graceful_complete (cap : Nat) (sc : Script) (ls : List Label) (s : Sys)
+    (hr : run? (init cap sc) ls = some s) (i : Nat) (hi : i < s.taken) (m : Nat) (k : Kind)
+    (ha : s.accepted[i]? = some (.env m k)) : m ∈ startedMids s.ev := by
+  obtain ⟨_, _, _, h4⟩ := (StopInv_run cap sc ls s hr).1
+  rw [h4]
+  have : (s.accepted.take s.taken)[i]? = some (Item.env m k) := by
+    rw [List.getElem?_take, if_pos hi, ha]
+  exact List.mem_filterMap.mpr ⟨_, List.mem_of_getElem? this, rfl⟩
+
+/-- `marker_is_next`: when the loop is about to dequeue a stop marker, the marker sits at position `taken`
+    of the acceptance log: everything accepted before it has been dequeued, hence (graceful_complete)
+    handled before on_stop begins. -/
+theorem marker_is_next (cap : Nat) (sc : Script) (ls : List Label) (s : Sys)
+    (hr : run? (init cap sc) ls = some s) (hpc : s.pc = .selMail) (o : Nat) (rest : List Item)
+    (hm : s.mbox = .stop o :: rest) : s.accepted[s.taken]? = some (.stop o) := by
+  obtain ⟨hf, _, he, _⟩ := StopInv_run cap sc ls s hr
+  have hopen : s.rxOpen = true := by
+    cases hro : s.rxOpen
+    · have := he.closedIff.mp hro; rw [hpc] at this; cases this
+    · rfl
+  have hdrop : s.accepted.drop s.taken = .stop o :: rest := by rw [← hf.2.1 hopen, hm]
+  have := congrArg List.head? hdrop
+  simpa [List.head?_drop] using this
 
 -- non-vacuity: capacity 1, a handled ask, a queued tell, a blocked timed tell that times out
 example : ∃ s, run? (init 1 {})
